@@ -5,6 +5,7 @@ import numpy as np
 from hypothesis import strategies as st
 
 from vf.harness import Check
+from vf.gen.util import weighted
 from vf.gen import lens as GL
 from vf.gen.build import build
 from vf.gen.edit import edit_strategy, apply_edit, ALL_KINDS
@@ -18,7 +19,7 @@ def ray_bundle():
         lambda t: (round(t[0], 4), round(math.sqrt(t[1]) * math.cos(t[2]), 4), round(math.sqrt(t[1]) * math.sin(t[2]), 4)))
     rim = st.tuples(f(-1, 1), f(0, 2 * math.pi)).map(
         lambda t: (round(t[0], 4), math.cos(t[1]), math.sin(t[1])))
-    return st.lists(st.one_of(pt, pt, rim), min_size=4, max_size=24)
+    return st.lists(weighted((2, pt), (1, rim)), min_size=4, max_size=24)
 
 
 def spec_from_optic(o):
